@@ -113,7 +113,12 @@ fn gen_family(seed: u64, fi: usize, stats: &mut BTreeMap<String, usize>) -> Fami
     let root = 2;
     let mut unis = vec![g.uni.clone()];
     let mut edits_all = vec![];
-    let nver = g.rng.range(1, 4); // 2..5 program versions
+    // every sixth family follows a script for the packed candidate: a field is added in version 1
+    // and removed again (AbiRemoved) in a later version, so that some written versions lie inside,
+    // below and above the closed range of a field that is no longer in memory
+    let scripted = fi % 6 == 1;
+    let nver = if scripted { g.rng.range(3, 4) } else { g.rng.range(1, 4) }; // 2..5 program versions
+    let script_remove_at = if scripted { g.rng.range(2, nver) as u32 } else { 0 };
     let mut fn_ctr = 0usize;
     for v in 1..=nver as u32 {
         let mut u = unis.last().unwrap().clone();
@@ -122,12 +127,28 @@ fn gen_family(seed: u64, fi: usize, stats: &mut BTreeMap<String, usize>) -> Fami
         g.uni = u;
         let mut labels = vec![];
         let nedits = g.rng.range(1, 3);
-        for _ in 0..nedits {
-            let di = g.rng.below(g.uni.defs.len());
+        for e in 0..nedits {
+            // (the packed candidate gets a larger share: its version ranges decide raw copy vs field-wise)
+            let mut di = if g.rng.chance(1, 4) { 1 } else { g.rng.below(g.uni.defs.len()) };
+            let script_step = if scripted && e == 0 && v == 1 {
+                1
+            } else if scripted && e == 0 && v == script_remove_at {
+                2
+            } else {
+                0
+            };
+            if script_step != 0 {
+                di = 1;
+            }
             g.def_limit = di; // new field types may only refer to earlier definitions
             let is_enum = g.uni.defs[di].is_enum();
             let packed_def = di == 1;
-            let roll = g.rng.below(if is_enum { 3 } else { 12 });
+            let mut roll = g.rng.below(if is_enum { 3 } else { 12 });
+            match script_step {
+                1 => roll = 0,
+                2 => roll = 5,
+                _ => {}
+            }
             if is_enum {
                 // append a variant
                 let d = &mut g.uni.defs[di];
@@ -210,13 +231,18 @@ fn gen_family(seed: u64, fi: usize, stats: &mut BTreeMap<String, usize>) -> Fami
                     if cands.is_empty() || live_count <= 1 {
                         continue;
                     }
-                    let fi2 = *g.rng.pick(&cands);
+                    // prefer a field that was itself added in a later version (added, then removed)
+                    let added_later: Vec<usize> = match &g.uni.defs[di].kind {
+                        DefKind::Struct { fields, .. } => cands.iter().copied().filter(|i| fields[*i].vfrom > 0).collect(),
+                        _ => vec![],
+                    };
+                    let fi2 = if !added_later.is_empty() && (script_step == 2 || g.rng.chance(1, 2)) { *g.rng.pick(&added_later) } else { *g.rng.pick(&cands) };
                     let fty = match &g.uni.defs[di].kind {
                         DefKind::Struct { fields, .. } => fields[fi2].ty.clone(),
                         _ => unreachable!(),
                     };
                     let has_default = g.uni.caps(&fty).default;
-                    let how = g.rng.below(4);
+                    let how = if script_step == 2 { g.rng.range(1, 2) } else { g.rng.below(4) };
                     let mut ctor = None;
                     let kind = if !has_default {
                         RemovedKind::Removed
@@ -240,6 +266,11 @@ fn gen_family(seed: u64, fi: usize, stats: &mut BTreeMap<String, usize>) -> Fami
                         f.abi_ctor = ctor.clone();
                         f.default = DefaultKind::Trait;
                         f.default_dv = None;
+                    }
+                    if let DefKind::Struct { fields, .. } = &g.uni.defs[di].kind {
+                        if fields[fi2].vfrom > 0 {
+                            labels.push(if packed_def { "packed_field_added_then_removed".into() } else { "field_added_then_removed".into() });
+                        }
                     }
                     labels.push(
                         match (kind, ctor.is_some()) {
@@ -265,7 +296,12 @@ fn gen_family(seed: u64, fi: usize, stats: &mut BTreeMap<String, usize>) -> Fami
                     if cands.is_empty() {
                         continue;
                     }
-                    let fi2 = *g.rng.pick(&cands);
+                    // prefer a field that was itself added in a later version (added, then removed)
+                    let added_later: Vec<usize> = match &g.uni.defs[di].kind {
+                        DefKind::Struct { fields, .. } => cands.iter().copied().filter(|i| fields[*i].vfrom > 0).collect(),
+                        _ => vec![],
+                    };
+                    let fi2 = if !added_later.is_empty() && g.rng.chance(1, 2) { *g.rng.pick(&added_later) } else { *g.rng.pick(&cands) };
                     if let DefKind::Struct { fields, .. } = &mut g.uni.defs[di].kind {
                         fields[fi2].vto = Some(v - 1);
                     }
@@ -286,7 +322,12 @@ fn gen_family(seed: u64, fi: usize, stats: &mut BTreeMap<String, usize>) -> Fami
                     if cands.is_empty() {
                         continue;
                     }
-                    let fi2 = *g.rng.pick(&cands);
+                    // prefer a field that was itself added in a later version (added, then removed)
+                    let added_later: Vec<usize> = match &g.uni.defs[di].kind {
+                        DefKind::Struct { fields, .. } => cands.iter().copied().filter(|i| fields[*i].vfrom > 0).collect(),
+                        _ => vec![],
+                    };
+                    let fi2 = if !added_later.is_empty() && g.rng.chance(1, 2) { *g.rng.pick(&added_later) } else { *g.rng.pick(&cands) };
                     fn_ctr += 1;
                     let how = g.rng.below(4);
                     if let DefKind::Struct { fields, .. } = &mut g.uni.defs[di].kind {
